@@ -239,3 +239,56 @@ def _(m, callee, args):
     while isinstance(v, (Ref, ValRef)):
         v = m.read_place(v.frame, v.place) if isinstance(v, Ref) else v.v
     return v
+
+
+class StrSliceMut:
+    """&mut str pointing into a String: (reference to the owner, char range)"""
+    __slots__ = ('owner', 'a', 'b')
+
+    def __init__(self, owner, a, b):
+        self.owner, self.a, self.b = owner, a, b
+
+
+_rstr_prev = rstr
+
+
+def rstr(m, v):      # noqa: F811
+    if isinstance(v, StrSliceMut):
+        s = _rstr_prev(m, v.owner)
+        return RStr(s.cs[v.a:v.b])
+    return _rstr_prev(m, v)
+
+
+@model(r'^<(String|str) as (std::ops::)?IndexMut<(std::ops::)?Range(To|From|Full)?<usize>>>::index_mut$')
+def _(m, callee, args):
+    s = _rstr_prev(m, args[0])
+    rng = args[1]
+    if 'RangeTo<' in callee:
+        a, b = 0, cidx(m, s.cs, rng.fields[0], 'end byte index')
+    elif 'RangeFrom<' in callee:
+        a, b = cidx(m, s.cs, rng.fields[0], 'start byte index'), len(s.cs)
+    elif 'RangeFull' in callee:
+        a, b = 0, len(s.cs)
+    else:
+        a, b = cidx(m, s.cs, rng.fields[0], 'start byte index'), cidx(m, s.cs, rng.fields[1], 'end byte index')
+        if a > b:
+            raise Panic('slice index starts after end')
+    return StrSliceMut(args[0], a, b)
+
+
+@model(r'str::<impl str>::make_ascii_(lower|upper)case$|^String::make_ascii_(lower|upper)case$')
+def _(m, callee, args):
+    f = c_to_ascii_lower if 'lowercase' in callee else c_to_ascii_upper
+    t = args[0]
+    if isinstance(t, StrSliceMut):
+        s = _rstr_prev(m, t.owner)
+        new = RStr(s.cs[:t.a] + [f(c) for c in s.cs[t.a:t.b]] + s.cs[t.b:])
+        r = t.owner
+    else:
+        s = _rstr_prev(m, t)
+        new = RStr([f(c) for c in s.cs])
+        r = t
+    if not isinstance(r, Ref):
+        raise Unsupported('in-place case change through a non-reference')
+    m.write_place(r.frame, r.place, new)
+    return ()
